@@ -9,6 +9,8 @@ package account
 //verif:bound UTXO sets: nConf confirmed + nUnc unconfirmed records with (nConf,nUnc) in {(1,0),(2,0),(1,1),(2,1)} (quick and thorough); every unconfirmed record is either a fresh output or the same output as one of the confirmed records (the state between attaching a block and processing the pool removal); amounts arbitrary below 2^40, valid heights and the current height arbitrary uint64
 //verif:bound request: account, asset and vote of the records vary in one field per obligation (quick: vary = 0 account / 1 asset / 2 vote, the other two fields equal to the request) or in all three (thorough: vary = 3 with one confirmed and one unconfirmed record); amount arbitrary below 2^42, useUnconfirmed arbitrary
 //verif:bound histories: VerifC26Reserve = up to nEarlier (quick 0..1; thorough 2 for one confirmed + one unconfirmed record) earlier ReserveParticular calls on arbitrary outputs, then optionally Cancel(arbitrary id) or expireReservation(arbitrary instant), then Reserve; VerifC26Particular = an earlier Reserve, then optionally Cancel / expireReservation, then ReserveParticular of an arbitrary (existing or unknown) output
+//verif:bound selection over three or four matching outputs (VerifC26Select): 3 (quick) / 4 (thorough) confirmed records that all match the request and are mature, amounts arbitrary below 2^40; one earlier ReserveParticular of an arbitrary one of them (or of an unknown output = no earlier reservation); then Reserve with an arbitrary amount below 2^42: the replacement loop of optUTXOs (largest chosen output swapped for several smaller ones) runs over reserved and unreserved candidates in every order of amounts
+//verif:bound pool confirmation histories (VerifC26Confirm): attempt A (ReserveParticular of an arbitrary output, or Reserve when kind = 1); then one of: nothing / the pool transaction of an arbitrary unconfirmed output is confirmed (its record is written to the database unless already there, and RemoveUnconfirmedUtxo is called for it) / AddUnconfirmedUtxo of a fresh output; then attempt B (ReserveParticular of an arbitrary output, or Reserve when kind = 2); record sets (1,1) for all kinds and (2,1) for the ReserveParticular kind in quick, (2,1) for the Reserve kinds and (1,2) in thorough; useUnconfirmed arbitrary
 //verif:bound expiry histories (VerifC26Expiry): reservation A (ReserveParticular of an arbitrary output, or Reserve when kind = 1) expiring d_A seconds after its creation; t1 seconds pass; reservation attempt B (ReserveParticular of an arbitrary output); t2 seconds pass; then nothing, the sweeper (expireReservation(now)) or Cancel(arbitrary id); t3 seconds pass; reservation attempt C (ReserveParticular of an arbitrary output, or Reserve when kind = 2); all d and t symbolic in 0..65535 s, so every expiry may or may not have passed at every later step, with or without the sweeper having run; record sets (1,0),(2,0),(1,1) in quick, (2,1) and the Reserve kinds on two records in thorough
 //verif:assume liveness of a reservation (oracle): a reservation is live from the moment it is handed out until it is cancelled or removed by the sweeper (expireReservation called with an instant later than its expiry). A reservation whose expiry instant has passed but that has not been swept yet is STILL live: the keeper still holds its outputs, so ReserveParticular must answer ErrReserved and Reserve must not select them until the sweeper has run
 //verif:assume clock of VerifC26Expiry: for the solver time.Now and the expiry instants are read from a harness clock (whole seconds) that verifC26Pass advances; in the native replay they come from the real clock and verifC26Pass instead moves the expiry of every reservation in the keeper into the past by the same amount; steps at which an expiry instant equals the current instant exactly are excluded (the real clock advances between two reads). The unmodified keeper never reads the clock itself; the stub exists so that a keeper that does is still decided
@@ -27,6 +29,10 @@ package account
 //verif:obligation fn=VerifC26Reserve args=2,1,0,0;2,1,1,0;2,1,2,0 secs=900 timeout=120000
 //verif:obligation fn=VerifC26Reserve args=2,1,0,1;1,1,0,2;1,1,3,1 tier=thorough secs=3000 paths=4000000 timeout=120000
 //verif:obligation fn=VerifC26Particular args=1,1,0;2,0,0 secs=900 validate=12 timeout=120000
+//verif:obligation fn=VerifC26Select args=3 secs=3000 validate=12 timeout=120000
+//verif:obligation fn=VerifC26Select args=4 tier=thorough secs=3000 paths=4000000 timeout=120000
+//verif:obligation fn=VerifC26Confirm args=1,1,0;2,1,0;1,1,1;1,1,2 secs=3000 validate=12 timeout=120000
+//verif:obligation fn=VerifC26Confirm args=2,1,1;2,1,2;1,2,0 tier=thorough secs=3000 paths=4000000 timeout=120000
 //verif:obligation fn=VerifC26Expiry args=1,0,0;2,0,0;1,1,0;1,0,1;1,0,2 secs=3000 validate=12 timeout=120000
 //verif:obligation fn=VerifC26Expiry args=2,1,0;2,0,1;2,0,2;1,1,1;1,1,2 tier=thorough secs=3000 paths=4000000 timeout=120000
 //verif:obligation fn=VerifC26Particular args=2,1,0 tier=thorough secs=3000 paths=4000000 timeout=120000
@@ -185,6 +191,10 @@ func verifC26Fields(w *verifC26World, u *UTXO, vary int) {
 	u.Amount = verifU64("utxo.amount")
 	verifAssume(u.Amount < 1<<40)
 	u.ValidHeight = verifU64("utxo.validHeight")
+	if vary == 4 {
+		// every record matches the request and is mature
+		verifAssume(u.ValidHeight <= w.height)
+	}
 	u.ControlProgram = []byte{0x51}
 }
 
@@ -582,4 +592,74 @@ func VerifC26Expiry(nConf int, nUnc int, kind int) {
 	w.pass("t3")
 	w.attempt("c", kind == 2, useUnc)
 	verifReach("VerifC26Expiry:end")
+}
+
+// ---------------------------------------------------------------------------
+// selection among three or more matching outputs, one of them possibly reserved
+
+func VerifC26Select(nConf int) {
+	w := verifC26Setup(nConf, 0, 4)
+	w.attempt("earlier", false, false)
+	w.attempt("reserve", true, false)
+	verifReach("VerifC26Select:end")
+	if len(w.live) == 2 {
+		verifReach("VerifC26Select:both-live")
+		if len(w.live[1].outs) >= 2 {
+			verifReach("VerifC26Select:several-outputs-next-to-a-reserved-one")
+		}
+	}
+}
+
+// ---------------------------------------------------------------------------
+// the pool transaction of an unconfirmed output is confirmed between two attempts
+
+func (w *verifC26World) poolStep(vary int) {
+	switch verifChoice("pool", 3) {
+	case 1:
+		// confirmed: the record is in the database, the unconfirmed entry is removed
+		if len(w.unc) == 0 {
+			return
+		}
+		j := verifChoice("pool.confirmed", len(w.unc))
+		u := w.unc[j]
+		id := u.OutputID
+		inDB := false
+		for _, c := range w.conf {
+			if c.OutputID == id {
+				inDB = true
+			}
+		}
+		if !inDB {
+			data, _ := json.Marshal(u)
+			w.uk.db.Set(StandardUTXOKey(id), data)
+			w.conf = append(w.conf, u)
+		}
+		w.uk.RemoveUnconfirmedUtxo([]*bc.Hash{&id})
+		var keep []*UTXO
+		for _, x := range w.unc {
+			if x.OutputID != id {
+				keep = append(keep, x)
+			}
+		}
+		w.unc = keep
+		verifReach("VerifC26Confirm:confirmed")
+		if w.held(id) {
+			verifReach("VerifC26Confirm:confirmed-while-reserved")
+		}
+	case 2:
+		u := &UTXO{OutputID: bc.Hash{V0: 20}}
+		verifC26Fields(w, u, vary)
+		w.uk.AddUnconfirmedUtxo([]*UTXO{u})
+		w.unc = append(w.unc, u)
+		verifReach("VerifC26Confirm:added")
+	}
+}
+
+func VerifC26Confirm(nConf int, nUnc int, kind int) {
+	w := verifC26Setup(nConf, nUnc, 0)
+	useUnc := verifBool("useUnconfirmed")
+	w.attempt("a", kind == 1, useUnc)
+	w.poolStep(0)
+	w.attempt("b", kind == 2, useUnc)
+	verifReach("VerifC26Confirm:end")
 }
